@@ -8,10 +8,7 @@ import (
 	"fmt"
 	"os"
 	"path/filepath"
-	"sort"
 	"strings"
-	"sync"
-	"sync/atomic"
 	"time"
 
 	"github.com/openfga/openfga/internal/verifh/c12/wl"
@@ -343,20 +340,16 @@ func (w *runner) runState(ctx context.Context, s *state, events []wl.Event, st *
 	have := false
 	ndev := 0
 	for _, e := range events {
-		var devs []dev
-		sk.gate.Enter()
 		if !have {
 			var err error
 			l, err = w.setup(ctx, s.hist)
 			if err != nil {
-				sk.gate.Leave()
 				sk.report([]dev{{"history-replay-failed@" + w.name, err.Error(), Case{Part: "bfs", Backend: w.name, History: s.hist, Readable: histString(w.u, s.hist), Err: err.Error()}}})
 				return
 			}
 			have = true
 		}
 		changed, unknown, devs := w.checkEvent(ctx, l, s.hist, s.ref, e, st)
-		sk.gate.Leave()
 		if changed || unknown {
 			have = false
 		}
@@ -656,19 +649,18 @@ func usesCond(e wl.Event, c int) bool {
 	return false
 }
 
-// orderOnly: the observed changelog is a permutation of the expected one (nothing lost, nothing extra) and contents agree.
-func orderOnly(c Case) bool {
-	if c.Got == nil || c.After == nil {
-		return false
+func usesKey(e wl.Event, k int) bool {
+	for _, d := range e.Del {
+		if d == k {
+			return true
+		}
 	}
-	var want []string
-	for _, g := range c.After.Changes {
-		want = append(want, strings.Split(strings.Trim(g, "{}"), ", ")...)
+	for _, it := range e.Wr {
+		if it.K == k {
+			return true
+		}
 	}
-	got := append([]string(nil), c.Got.Changes...)
-	sort.Strings(want)
-	sort.Strings(got)
-	return strings.Join(want, "|") == strings.Join(got, "|") && strings.Join(c.Got.Tuples, "|") == strings.Join(c.After.Tuples, "|")
+	return false
 }
 
 func backends() []string {
@@ -678,101 +670,231 @@ func backends() []string {
 	return []string{"memory", "sqlite"}
 }
 
+// sink: a deviation counts once it reproduces 5/5 when the recorded case is re-executed from scratch.
 type sink struct {
-	r    *core.Report
-	u    *wl.Universe
-	gate *wl.Gate
-	mu   sync.Mutex
-	// per signature bookkeeping
+	c         *wl.Collector
+	u         *wl.Universe
 	confirmed map[string]bool
 	tried     map[string]int
-	agg       *stats
 }
 
-func (s *sink) merge(st *stats) {
-	s.mu.Lock()
-	defer s.mu.Unlock()
-	a := s.agg
-	a.evals += st.evals
-	a.skippedReadback += st.skippedReadback
-	a.accepted += st.accepted
-	a.rejected += st.rejected
-	a.valRejectedMutating += st.valRejectedMutating
-	a.faultRuns += st.faultRuns
-	a.crashImages += st.crashImages
-	a.crashOpened += st.crashOpened
-	a.cleanRuns += st.cleanRuns
-	a.afterStateWithError += st.afterStateWithError
-	if st.maxBoundaries > a.maxBoundaries {
-		a.maxBoundaries = st.maxBoundaries
-	}
-	for k, v := range st.byWhy {
-		a.byWhy[k] += v
-	}
-	for k, v := range st.kinds {
-		a.kinds[k] += v
-	}
-}
-
-// report must be called OUTSIDE the gate.
 func (s *sink) report(devs []dev) {
 	for _, d := range devs {
-		s.mu.Lock()
-		ok := s.confirmed[d.sig]
-		tries := s.tried[d.sig]
-		s.mu.Unlock()
-		if ok {
-			s.r.Violate(d.sig, d.desc, d.c)
+		if s.confirmed[d.sig] {
+			s.c.Violate(d.sig, d.desc, d.c)
 			continue
 		}
-		if tries >= 6 {
-			s.r.Count("deviations_not_reconfirmed", 1)
+		if s.tried[d.sig] >= 6 {
+			s.c.Count("deviations_not_reconfirmed", 1)
 			continue
 		}
-		var rep bool
-		s.gate.Alone(func() { rep = confirm(s.u, d, 5) })
-		s.mu.Lock()
 		s.tried[d.sig]++
-		if rep {
+		if confirm(s.u, d, 5) {
 			s.confirmed[d.sig] = true
-		}
-		s.mu.Unlock()
-		if rep {
-			s.r.Violate(d.sig, d.desc, d.c)
-		} else if orderOnly(d.c) {
-			// same multiset of changes, requests out of order: openfga's process-global monotonic ULID entropy was reset by a
-			// write of ANOTHER harness worker between two same-millisecond writes of this store (see report); not reproducible alone
-			s.r.Count("anomaly_changelog_order_inverted_under_parallel_load", 1)
-			s.mu.Lock()
-			first := s.tried["order-sample"] < 3
-			s.tried["order-sample"]++
-			s.tried[d.sig]--
-			s.mu.Unlock()
-			if first {
-				s.r.Anomaly(map[string]any{"signature": d.sig, "class": "changelog-order-inverted-under-parallel-load", "desc": d.desc, "case": d.c})
-			}
+			s.c.Violate(d.sig, d.desc, d.c)
 		} else {
-			s.r.Anomaly(map[string]any{"signature": d.sig, "desc": d.desc, "case": d.c, "note": "seen once under parallel load, 0..4 of 5 isolated re-executions reproduced it"})
+			s.c.Anomaly(map[string]any{"signature": d.sig, "desc": d.desc, "case": d.c, "note": "not reproduced by 5 re-executions of the recorded case"})
 		}
 	}
 }
+
+func (st *stats) into(c *wl.Collector) {
+	c.Eval(st.evals)
+	c.Count("accepted_writes_verified", st.accepted)
+	c.Count("rejected_writes_verified_unchanged", st.rejected)
+	c.Count("readback_skipped_no_mutating_statement", st.skippedReadback)
+	c.Count("validation_rejected_with_mutating_statement", st.valRejectedMutating)
+	c.Count("e4_fault_runs", st.faultRuns)
+	c.Count("e4_crash_images_judged", st.crashImages)
+	c.Count("e4_crash_images_distinct_bytes_reopened", st.crashOpened)
+	c.Count("e4_fault_free_followup_runs", st.cleanRuns)
+	c.Count("e4_after_state_present_although_error_returned", st.afterStateWithError)
+	c.Max("max_boundaries_in_one_write", int64(st.maxBoundaries))
+	for k, v := range st.byWhy {
+		c.Count("rule:"+k, v)
+	}
+	for k, v := range st.kinds {
+		c.Count("e4:"+k, v)
+	}
+	for _, h := range st.nontrivial {
+		c.Nontrivial(h)
+	}
+}
+
+// plan: the deterministic work list (identical in the parent and in every shard).
+type unit struct {
+	backend string
+	s       *state
+	evs     []wl.Event
+	first   bool
+}
+
+type e4job struct {
+	s *state
+	e wl.Event
+}
+
+type plan struct {
+	events      []wl.Event
+	eventsNoErr []wl.Event
+	lv          [][]*state
+	units       []unit
+	e4          []e4job
+	e4States    int
+	depth       int
+	depth4      int
+}
+
+func buildPlan(u *wl.Universe, o *core.Options) *plan {
+	p := &plan{depth: 2, depth4: 1}
+	if o.Thorough() {
+		p.depth, p.depth4 = 3, 2
+	}
+	p.events = allEvents(u)
+	for _, e := range p.events {
+		if e.OnDup != "error" && e.OnMiss != "error" {
+			p.eventsNoErr = append(p.eventsNoErr, e)
+		}
+	}
+	p.lv = levels(u, p.events, p.depth-1)
+	const chunk = 200
+	for d, l := range p.lv {
+		for _, be := range backends() {
+			ss := l
+			if be == "sqlite" && o.Thorough() && d == p.depth-1 && d >= 2 {
+				ss = perContent(u, l, 3)
+			}
+			evs := p.events
+			if be == "sqlite" && !o.Thorough() && d >= 1 {
+				evs = p.eventsNoErr // quick: the alias spelling "error" runs on SQLite from the empty store only
+			}
+			for _, s := range ss {
+				for lo := 0; lo < len(evs); lo += chunk {
+					hi := lo + chunk
+					if hi > len(evs) {
+						hi = len(evs)
+					}
+					p.units = append(p.units, unit{be, s, evs[lo:hi], lo == 0})
+				}
+			}
+		}
+	}
+	lv4 := p.lv
+	if len(lv4) > p.depth4+1 {
+		lv4 = lv4[:p.depth4+1]
+	}
+	for d, l := range lv4 {
+		ss := l
+		if d >= 2 {
+			ss = perContent(u, l, 2)
+		}
+		for _, s := range ss {
+			p.e4States++
+			for _, e := range p.events {
+				if e.OnDup == "error" || e.OnMiss == "error" {
+					continue // "error" and "" parse to the same datastore option (part (i) runs both spellings)
+				}
+				if !o.Thorough() && (usesCond(e, 2) || usesKey(e, 2)) {
+					continue // quick: E4 requests name keys 0,1 and write conditions {none, cx{x:1}} (histories range over the whole universe)
+				}
+				r2 := s.ref.Clone()
+				if _, why := r2.ApplyWhy(e); !storageLevel(why) {
+					continue
+				}
+				p.e4 = append(p.e4, e4job{s, e})
+			}
+		}
+	}
+	return p
+}
+
+// runShard executes this process's share of the plan on one goroutine.
+func runShard(u *wl.Universe, o *core.Options, p *plan, c *wl.Collector) {
+	ctx := context.Background()
+	sk := &sink{c: c, u: u, confirmed: map[string]bool{}, tried: map[string]int{}}
+	runners := map[string]*runner{}
+	get := func(be string) *runner {
+		if runners[be] == nil {
+			runners[be] = newRunner(u, be)
+		}
+		return runners[be]
+	}
+	defer func() {
+		for _, w := range runners {
+			w.close()
+		}
+	}()
+	total := len(p.units) + len(p.e4)
+	for i := c.Next(); i < total; i = c.Next() {
+		if c.Expired() {
+			return
+		}
+		if i >= len(p.units) {
+			runE4(ctx, u, o, get("sqlite"), p.e4[i-len(p.units)], c, sk)
+			continue
+		}
+		un := p.units[i]
+		st := newStats()
+		get(un.backend).runState(ctx, un.s, un.evs, st, sk)
+		st.into(c)
+		c.Count("bfs_executions", st.evals)
+		if un.first {
+			c.Count("bfs_state_backend_pairs_expanded", 1)
+		}
+		for _, e := range un.evs {
+			r2 := un.s.ref.Clone()
+			if _, why := r2.ApplyWhy(e); storageLevel(why) {
+				c.Nontrivial(core.Hash("bfs", un.backend, un.s.ref.ContentKey(u), u.EventString(e)))
+			}
+		}
+		if len(un.s.hist) > 0 && un.backend == "sqlite" && c.Shard == 0 {
+			e := un.evs[len(un.evs)/2]
+			r2 := un.s.ref.Clone()
+			if ok, why := r2.ApplyWhy(e); storageLevel(why) {
+				c.Sample(map[string]any{"part": "bfs", "backend": un.backend, "history": histString(u, un.s.hist), "event": u.EventString(e), "reference_accepts": ok, "rule": why, "state_after": refObs(u, r2)})
+			}
+		}
+	}
+}
+
+func runE4(ctx context.Context, u *wl.Universe, o *core.Options, w *runner, j e4job, c *wl.Collector, sk *sink) {
+	st := newStats()
+	devs := w.e4Event(ctx, j.s.hist, j.s.ref, j.e, o.Thorough(), st)
+	st.into(c)
+	if len(devs) == 0 && st.faultRuns >= 10 {
+		r2 := j.s.ref.Clone()
+		ok, why := r2.ApplyWhy(j.e)
+		c.Sample(map[string]any{"part": "e4", "history": histString(u, j.s.hist), "event": u.EventString(j.e), "reference_accepts": ok, "rule": why,
+			"fault_runs": st.faultRuns, "crash_images": st.crashImages, "state_before": refObs(u, j.s.ref), "state_after": refObs(u, r2)})
+	}
+	sk.report(devs)
+}
+
+const rule = "Part (i): breadth-first over Write histories; a state is (store contents, changelog) as the reference model computes it; from every state at " +
+	"history length < D every Write request of the alphabet (delete lists of <=2 of 3 tuple keys incl. a key named twice x write lists of <=2 of 9 (key,condition) items incl. " +
+	"same key twice x on_missing x on_duplicate, each in {\"\",error,ignore,bogus}; lists naming a key twice only with option pairs (\"\",\"\") and (ignore,ignore)) is executed through " +
+	"commands.WriteCommand on memory and SQLite; success must equal the reference's verdict and Read + ReadChanges must equal the reference after every event. " +
+	"Part (ii): for every history of length <= D4 (one per distinct state) and every request of the alphabet that passes request validation (options in {\"\",ignore}), on SQLite, every driver-level boundary k " +
+	"(BEGIN/QUERY/EXEC/COMMIT/ROLLBACK) of the Write is enumerated as error-before-k, error-after-k (result lost), connection loss (at COMMIT; thorough: at every k) and as crash image " +
+	"(db, db-wal, db-shm copied at k and after the call returned, reopened by a fresh datastore). A case is distinct by (part, backend, store contents, request, k, mode); " +
+	"non-trivial = the request passes request validation (reaches datastore.Write)."
 
 func Run(o *core.Options) int {
 	u := U
-	r := core.NewReport(o, "fault_enumeration",
-		"Part (i): breadth-first over Write histories; a state is (store contents, changelog) as the reference model computes it; from every state at "+
-			"history length < D every Write request of the alphabet (delete lists of <=2 of 3 tuple keys incl. a key named twice x write lists of <=2 of 9 (key,condition) items incl. "+
-			"same key twice x on_missing x on_duplicate, each in {\"\",error,ignore,bogus}) is executed through commands.WriteCommand on memory and SQLite; "+
-			"success must equal the reference's verdict and Read + ReadChanges must equal the reference after every event. "+
-			"Part (ii): for every history of length <= D4 (one per distinct state) and every request of the alphabet that passes request validation, on SQLite, every driver-level boundary k "+
-			"(BEGIN/QUERY/EXEC/COMMIT/ROLLBACK) of the Write is enumerated as error-before-k, error-after-k (result lost), connection loss (at COMMIT; thorough: at every k) and as crash image "+
-			"(db, db-wal, db-shm copied at k and after the call returned, reopened by a fresh datastore). A case is distinct by (part, backend, store contents, request, k, mode); "+
-			"non-trivial = the request passes request validation (reaches datastore.Write).")
-	defer wl.Cleanup()
-	ctx := context.Background()
+	start := time.Now()
 	_ = os.MkdirAll("/verif/.build/tmp/c12", 0o755)
+	ctx := context.Background()
 
+	if i, n, out, dl, ok := wl.ShardEnv(); ok {
+		defer wl.Cleanup()
+		c := wl.NewShardCollector(i, n, dl)
+		runShard(u, o, buildPlan(u, o), c)
+		return wl.FinishShard(c, out)
+	}
+
+	r := core.NewReport(o, "fault_enumeration", rule)
 	if o.Replay != "" {
+		defer wl.Cleanup()
 		var c Case
 		if err := core.LoadReplay(o.Replay, &c); err != nil {
 			fmt.Fprintln(os.Stderr, "replay:", err)
@@ -790,204 +912,58 @@ func Run(o *core.Options) int {
 		return r.Finish()
 	}
 
-	depth, depth4 := 2, 1
-	if o.Thorough() {
-		depth, depth4 = 3, 2
-	}
-	events := allEvents(u)
-	lv := levels(u, events, depth-1)
-	r.Set("alphabet_size", len(events))
+	p := buildPlan(u, o)
 	var lvCounts []int
-	for _, l := range lv {
+	for _, l := range p.lv {
 		lvCounts = append(lvCounts, len(l))
 	}
+	r.Set("alphabet_size", len(p.events))
 	r.Set("states_per_history_length", lvCounts)
-	r.Set("bfs_depth", depth)
-	r.Set("e4_history_depth", depth4)
-
+	r.Set("bfs_depth", p.depth)
+	r.Set("bfs_work_units", len(p.units))
+	r.Set("e4_history_depth", p.depth4)
+	r.Set("e4_histories", p.e4States)
+	r.Set("e4_history_request_pairs", len(p.e4))
 	r.Assume(
 		"universe: 3 tuple keys (doc:1#viewer@user:a, doc:1#viewer@user:b, doc:2#viewer@user:a) x conditions {none, cx{x:1}, cx{x:2}}; model viewer: [user, user with cx]",
 		"requests go through commands.WriteCommand.Execute on the datastore (the gRPC Server.Write wrapper adds authz/model-id resolution only)",
 		"the order of the items of ONE request inside the changelog is not compared (only their multiset and the order of requests)",
 		"an unknown on_duplicate/on_missing value and a key named twice in one request are rejected requests in the reference (request validation)",
 		"SQLite read-back is skipped only for failed calls during which no EXEC/COMMIT reached the driver (counted: readback_skipped_no_mutating_statement); validation-rejected requests never issued one (validation_rejected_with_mutating_statement must be 0)",
-		"E4 granularity is the database/sql driver call; torn pages / unsynced power loss are SQLite's contract (out of scope); a fault injected before COMMIT/ROLLBACK aborts the real transaction (a lost session is aborted by the database)",
-		"crash image = byte copy of db, db-wal, db-shm taken synchronously inside the driver call by the only goroutine using that database",
+		"E4 granularity is the database/sql driver call; torn pages / unsynced power loss are SQLite's contract (out of scope; harness databases run with synchronous=OFF); a fault injected before COMMIT/ROLLBACK aborts the real transaction (a lost session is aborted by the database)",
+		"crash image = byte copy of db, db-wal, db-shm taken synchronously inside the driver call by the only goroutine using that database; byte-identical images of one write are reopened once",
 		"PostgreSQL/MySQL cannot run in the sandbox; sqlcommon is exercised through SQLite only",
-		"deviations are re-executed 5x in isolation (all workers parked) before they count; non-reproducible ones are listed as anomalies")
+		"work is sharded over single-writer child processes (histories are sequential; openfga's process-global ULID entropy is not shared between histories)",
+		"a deviation counts when 5 re-executions of the recorded case reproduce it; others are listed as anomalies")
 	if o.Thorough() {
 		r.Assume("thorough, SQLite only: the deepest BFS layer expands up to 3 histories per distinct store contents (a Write never reads the changelog table); memory expands every (contents, changelog) state. E4 depth-2 histories: up to 2 per distinct store contents")
+	} else {
+		r.Assume("quick: E4 requests name tuple keys 0 and 1 and write conditions {none, cx{x:1}} (histories range over the whole universe); on SQLite the alias spelling \"error\" of the options is run from the empty store only (memory runs it everywhere). thorough lifts both restrictions")
 	}
 
-	t0 := time.Now()
-	sk := &sink{r: r, u: u, gate: &wl.Gate{}, confirmed: map[string]bool{}, tried: map[string]int{}, agg: newStats()}
-
-	// ---- part (i)
-	type job struct {
-		backend string
-		s       *state
+	cs, err := wl.RunShards(o, tag, o.Workers, start)
+	if err != nil {
+		fmt.Fprintln(os.Stderr, "C12:", err)
+		return 2
 	}
-	var jobs []job
-	for d, l := range lv {
-		for _, be := range backends() {
-			ss := l
-			if be == "sqlite" && o.Thorough() && d == depth-1 && d >= 2 {
-				ss = perContent(u, l, 3)
-			}
-			for _, s := range ss {
-				jobs = append(jobs, job{be, s})
-			}
+	tot := wl.NewCollector(0, 1, time.Time{})
+	for _, c := range cs {
+		c.MergeInto(r)
+		for k, v := range c.Counts {
+			tot.Counts[k] += v
+		}
+		for k, v := range c.Maxes {
+			tot.Max(k, v)
 		}
 	}
-	// split the alphabet so that the work units are small
-	const chunk = 300
-	type unit struct {
-		job
-		lo, hi int
+	for k, v := range tot.Maxes {
+		r.Set(k, v)
 	}
-	var units []unit
-	for _, j := range jobs {
-		for lo := 0; lo < len(events); lo += chunk {
-			hi := lo + chunk
-			if hi > len(events) {
-				hi = len(events)
-			}
-			units = append(units, unit{j, lo, hi})
-		}
-	}
-	pool := map[string]*sync.Pool{"memory": {}, "sqlite": {}}
-	var all []*runner
-	var allMu sync.Mutex
-	get := func(be string) *runner {
-		if v := pool[be].Get(); v != nil {
-			return v.(*runner)
-		}
-		w := newRunner(u, be)
-		allMu.Lock()
-		all = append(all, w)
-		allMu.Unlock()
-		return w
-	}
-	var sampled atomic.Int64
-	var bfsStates, bfsTransitions atomic.Int64
-	r.Parallel(len(units), func(i int) {
-		un := units[i]
-		w := get(un.backend)
-		st := newStats()
-		w.runState(ctx, un.s, events[un.lo:un.hi], st, sk)
-		pool[un.backend].Put(w)
-		for _, e := range events[un.lo:un.hi] {
-			r2 := un.s.ref.Clone()
-			if _, why := r2.ApplyWhy(e); storageLevel(why) {
-				r.Nontrivial(core.Hash("bfs", un.backend, un.s.ref.ContentKey(u), u.EventString(e)))
-			}
-		}
-		bfsTransitions.Add(st.evals)
-		if un.lo == 0 {
-			bfsStates.Add(1)
-		}
-		sk.merge(st)
-		r.Eval(st.evals)
-		if sampled.Add(1) <= 2 && len(un.s.hist) > 0 {
-			e := events[un.lo+(un.hi-un.lo)/2]
-			r2 := un.s.ref.Clone()
-			ok, why := r2.ApplyWhy(e)
-			r.Sample(map[string]any{"part": "bfs", "backend": un.backend, "history": histString(u, un.s.hist), "event": u.EventString(e), "reference_accepts": ok, "rule": why, "state_after": refObs(u, r2)})
-		}
-	})
-	bfsEvals := sk.agg.evals
-	r.Set("bfs_wall_s", time.Since(t0).Seconds())
-	fmt.Printf("C12 part (i) done: %d executions in %.1fs\n", bfsEvals, time.Since(t0).Seconds())
-
-	// ---- part (ii)
-	lv4 := lv
-	if len(lv4) > depth4+1 {
-		lv4 = lv4[:depth4+1]
-	}
-	type e4job struct {
-		s *state
-		e wl.Event
-	}
-	var e4 []e4job
-	e4States := 0
-	for d, l := range lv4 {
-		ss := l
-		if d >= 2 {
-			ss = perContent(u, l, 2)
-		}
-		for _, s := range ss {
-			e4States++
-			for _, e := range events {
-				if e.OnDup == "error" || e.OnMiss == "error" {
-					continue // "error" and "" parse to the same datastore option (part (i) runs both spellings)
-				}
-				if !o.Thorough() && usesCond(e, 2) {
-					continue // quick: E4 requests write conditions {none, cx{x:1}} (histories still hold cx{x:2})
-				}
-				r2 := s.ref.Clone()
-				if _, why := r2.ApplyWhy(e); !storageLevel(why) {
-					continue
-				}
-				e4 = append(e4, e4job{s, e})
-			}
-		}
-	}
-	r.Set("e4_histories", e4States)
-	r.Set("e4_history_request_pairs", len(e4))
-	var e4sampled atomic.Int64
-	r.Parallel(len(e4), func(i int) {
-		j := e4[i]
-		w := get("sqlite")
-		st := newStats()
-		sk.gate.Enter()
-		devs := w.e4Event(ctx, j.s.hist, j.s.ref, j.e, o.Thorough(), st)
-		sk.gate.Leave()
-		pool["sqlite"].Put(w)
-		for _, h := range st.nontrivial {
-			r.Nontrivial(h)
-		}
-		sk.merge(st)
-		r.Eval(st.evals)
-		if len(devs) == 0 && st.faultRuns >= 10 && e4sampled.Add(1) <= 3 {
-			r2 := j.s.ref.Clone()
-			ok, why := r2.ApplyWhy(j.e)
-			r.Sample(map[string]any{"part": "e4", "history": histString(u, j.s.hist), "event": u.EventString(j.e), "reference_accepts": ok, "rule": why,
-				"fault_runs": st.faultRuns, "crash_images": st.crashImages, "state_before": refObs(u, j.s.ref), "state_after": refObs(u, r2)})
-		}
-		sk.report(devs)
-	})
-	for _, w := range all {
-		w.close()
-	}
-
-	a := sk.agg
-	r.Count("bfs_executions", bfsEvals)
-	r.Count("bfs_state_backend_pairs_expanded", bfsStates.Load())
-	r.Count("accepted_writes_verified", a.accepted)
-	r.Count("rejected_writes_verified_unchanged", a.rejected)
-	r.Count("readback_skipped_no_mutating_statement", a.skippedReadback)
-	r.Count("validation_rejected_with_mutating_statement", a.valRejectedMutating)
-	r.Count("e4_fault_runs", a.faultRuns)
-	r.Count("e4_crash_images_judged", a.crashImages)
-	r.Count("e4_crash_images_distinct_bytes_reopened", a.crashOpened)
-	r.Count("e4_fault_free_followup_runs", a.cleanRuns)
-	r.Count("e4_after_state_present_although_error_returned", a.afterStateWithError)
-	r.Set("max_boundaries_in_one_write", a.maxBoundaries)
-	r.Set("reference_rule_counts", a.byWhy)
-	kinds := map[string]int64{}
-	var ks []string
-	for k := range a.kinds {
-		ks = append(ks, k)
-	}
-	sort.Strings(ks)
-	for _, k := range ks {
-		kinds[k] = a.kinds[k]
-	}
-	r.Set("e4_boundary_kind_mode_counts", kinds)
-	if a.valRejectedMutating > 0 {
+	if tot.Counts["validation_rejected_with_mutating_statement"] > 0 {
 		r.Violate("validation-rejected-request-issued-mutating-statement", "a request rejected by validation reached EXEC/COMMIT", nil)
 	}
 	b, _ := json.Marshal(lvCounts)
-	fmt.Printf("C12 %s: states per history length %s, alphabet %d, bfs executions %d, e4 pairs %d, fault runs %d, crash images %d\n", o.Tier, b, len(events), bfsEvals, len(e4), a.faultRuns, a.crashImages)
+	fmt.Printf("C12 %s: states per history length %s, alphabet %d, bfs executions %d, e4 pairs %d, fault runs %d, crash images %d (distinct %d)\n", o.Tier, b, len(p.events),
+		tot.Counts["bfs_executions"], len(p.e4), tot.Counts["e4_fault_runs"], tot.Counts["e4_crash_images_judged"], tot.Counts["e4_crash_images_distinct_bytes_reopened"])
 	return r.Finish()
 }
